@@ -509,4 +509,93 @@ theorem RM_routes_perRoute (v : Variant) (h : v.perRoute = true) (scripts : List
 
 example : runRoutes .asWritten [[.custom "x"], [.writeEntry]] = [[], [.entry { Entry.new with custom := some "x" }]] := by decide
 
+/-! #### guarded partial for the code as written -/
+
+/-- the entry under construction after a script (companion of `specRunWith`) -/
+def pend (nxt : Entry) (m : Bmp) : List Op → Entry → Entry
+  | [], e => e
+  | .writeEntry :: r, _ => pend nxt m r nxt
+  | .logCustom _ _ :: r, e => pend nxt m r e
+  | .custom s :: r, e => pend nxt m r (setter m (.custom s) e)
+  | .originAs :: r, e => pend nxt m r (setter m .originAs e)
+  | .peerAs :: r, e => pend nxt m r (setter m .peerAs e)
+  | .asPathHops :: r, e => pend nxt m r (setter m .asPathHops e)
+  | .convReach :: r, e => pend nxt m r (setter m .convReach e)
+  | .convUnreach :: r, e => pend nxt m r (setter m .convUnreach e)
+  | .mpReach :: r, e => pend nxt m r (setter m .mpReach e)
+  | .mpUnreach :: r, e => pend nxt m r (setter m .mpUnreach e)
+  | .logAll :: r, e => pend nxt m r (setter m .logAll e)
+
+theorem run_entry (v : Variant) (m : Bmp) (ops : List Op) (s : Stream) :
+    (run v m ops s).entry = pend v.next m ops s.entry := by
+  induction ops generalizing s with
+  | nil => rfl
+  | cons o r ih =>
+    have hr : run v m (o :: r) s = run v m r (step v m s o) := rfl
+    rw [hr, ih]
+    cases o <;> simp [step, pend, Variant.next]
+
+/-- does a script leave a composed-but-unwritten entry behind? (`d`: something is pending already) -/
+def pendDirty : List Op → Bool → Bool
+  | [], d => d
+  | .writeEntry :: r, _ => pendDirty r false
+  | .logCustom _ _ :: r, d => pendDirty r d
+  | _ :: r, _ => pendDirty r true
+
+/-- guard: every setter call of the script is followed by a `write_entry` -/
+def clean (ops : List Op) : Bool := !pendDirty ops false
+
+theorem pend_clean (nxt : Entry) (hn : nxt.noTs = Entry.default) (m : Bmp) (ops : List Op) (d : Bool) (e : Entry)
+    (hd : pendDirty ops d = false) (he : d = false → e.noTs = Entry.default) :
+    (pend nxt m ops e).noTs = Entry.default := by
+  induction ops generalizing d e with
+  | nil => exact he (by simpa [pendDirty] using hd)
+  | cons o r ih =>
+    cases o
+    case writeEntry => exact ih false nxt (by simpa [pendDirty] using hd) (fun _ => hn)
+    case logCustom a b => exact ih d e (by simpa [pendDirty] using hd) he
+    all_goals exact ih true _ (by simpa [pendDirty] using hd) (fun h => by cases h)
+
+theorem next_noTs (v : Variant) : v.next.noTs = Entry.default := by
+  unfold Variant.next; split <;> rfl
+
+/-- the fold of `runRoutes` as written, from any stream whose entry is untouched -/
+theorem routes_fold_partial (v : Variant) (scripts : List (List Op)) (h : ∀ ops ∈ scripts, clean ops = true)
+    (s : Stream) (acc : List (List Out)) (hs : s.msgs = []) (he : s.entry.noTs = Entry.default) :
+    ((scripts.foldl (fun (acc : Stream × List (List Out)) ops =>
+        let s := run v noBmp ops acc.1
+        ({ s with msgs := [] }, acc.2 ++ [s.msgs])) (s, acc)).2).map (·.map Out.noTs) =
+    acc.map (·.map Out.noTs) ++ scripts.map fun ops => (specRun noBmp ops Entry.new).map Out.noTs := by
+  induction scripts generalizing s acc with
+  | nil => simp
+  | cons ops r ih =>
+    simp only [List.foldl_cons]
+    rw [ih (fun o ho => h o (by simp [ho]))]
+    · simp only [List.map_append, List.map_cons, List.map_nil, List.append_assoc, List.cons_append, List.nil_append]
+      congr 2
+      rw [run_msgs, hs, List.nil_append, ← specRunWith_new]
+      exact specRunWith_noTs _ _ (next_noTs v) _ _ _ _ he
+    · rfl
+    · simp only
+      rw [run_entry]
+      have hc := h ops (by simp)
+      simp only [clean, Bool.not_eq_true'] at hc
+      exact pend_clean _ (next_noTs v) _ _ false _ hc (fun _ => he)
+
+/-- as written: when no script leaves a composed entry unwritten, every route's outputs are exact
+    modulo the timestamp -/
+theorem RM_routes_partial (v : Variant) (scripts : List (List Op)) (h : ∀ ops ∈ scripts, clean ops = true) :
+    (runRoutes v scripts).map (·.map Out.noTs) =
+    scripts.map fun ops => (specRun noBmp ops Entry.new).map Out.noTs := by
+  unfold runRoutes
+  split
+  · simp only [List.map_map]
+    congr 1
+    funext ops
+    exact RM_entries_partial v noBmp ops
+  · have := routes_fold_partial v scripts h Stream.new [] rfl rfl
+    simpa using this
+
+example : clean [.custom "x", .writeEntry, .logCustom 1 2] = true ∧ clean [.writeEntry, .custom "x"] = false := by decide
+
 end Rotonda.RotoMethods
